@@ -492,9 +492,79 @@ fn search_history(ctx: &mut Ctx) {
     } } } } }
 }
 
+/// C20 (bounded stand-in for the paper step "work <= c * len"): time the real parser on adversarial families at 4 KiB and
+/// 64 KiB; linear work gives a ratio of about 16, quadratic work about 256.  Reported when the ratio exceeds 80 in the best
+/// of several repetitions (and the large run is long enough to be measurable).
+fn time_parse(kind: u8, cfgb: u8, buf: &[u8]) -> f64 {
+    let pc = mkcfg(Cfg::from_bits(cfgb));
+    let mut best = f64::MAX;
+    for _ in 0..5 {
+        let t0 = std::time::Instant::now();
+        match kind {
+            0 => { let mut h = [httparse::EMPTY_HEADER; 8]; let mut r = httparse::Request::new(&mut h); let _ = std::hint::black_box(pc.parse_request(&mut r, buf)); }
+            1 => { let mut h = [httparse::EMPTY_HEADER; 8]; let mut r = httparse::Response::new(&mut h); let _ = std::hint::black_box(pc.parse_response(&mut r, buf)); }
+            2 => { let mut h = [httparse::EMPTY_HEADER; 8]; let _ = std::hint::black_box(httparse::parse_headers(buf, &mut h)); }
+            _ => { let _ = std::hint::black_box(httparse::parse_chunk_size(buf)); }
+        }
+        best = best.min(t0.elapsed().as_secs_f64());
+    }
+    best
+}
+fn family(name: &str, n: usize) -> (u8, u8, Vec<u8>) {
+    let rep = |unit: &[u8], n: usize| -> Vec<u8> { let mut v = Vec::with_capacity(n + unit.len()); while v.len() < n { v.extend_from_slice(unit); } v };
+    let mut b: Vec<u8>;
+    match name {
+        "folded-blank-lines" => { b = b"HTTP/1.1 200 OK\r\nX: a\r\n".to_vec(); b.extend(rep(b" \r\n", n)); (1, 2, b) }
+        "folded-lines" => { b = b"HTTP/1.1 200 OK\r\nX: a\r\n".to_vec(); b.extend(rep(b" bb\r\n", n)); (1, 2, b) }
+        "ignored-lines-req" => { b = b"GET / HTTP/1.1\r\n".to_vec(); b.extend(rep(b"@\n", n)); (0, 64, b) }
+        "ignored-lines-resp" => { b = b"HTTP/1.1 200 OK\r\n".to_vec(); b.extend(rep(b"b d\r\n", n)); (1, 32, b) }
+        "ws-after-colon" => { b = b"GET / HTTP/1.1\r\nX:".to_vec(); b.extend(rep(b" \t", n)); (0, 0, b) }
+        "ws-after-colon-fold" => { b = b"HTTP/1.1 200 OK\r\nX:".to_vec(); b.extend(rep(b" \r\n", n)); (1, 2, b) }
+        "ws-before-first" => { b = b"GET / HTTP/1.1\r\n".to_vec(); b.extend(rep(b" \t", n)); (0, 16, b) }
+        "long-value" => { b = b"GET / HTTP/1.1\r\nX: ".to_vec(); b.extend(rep(b"v\tv ", n)); (0, 0, b) }
+        "long-value-trailing-ws" => { b = b"GET / HTTP/1.1\r\nX: v".to_vec(); b.extend(rep(b" ", n)); b.extend(b"\r\n\r\n"); (0, 0, b) }
+        "long-name" => { b = b"GET / HTTP/1.1\r\n".to_vec(); b.extend(rep(b"n", n)); (0, 0, b) }
+        "long-target" => { b = b"GET /".to_vec(); b.extend(rep(b"a\xc3\xa9", n)); (0, 0, b) }
+        "many-headers" => { b = b"GET / HTTP/1.1\r\n".to_vec(); b.extend(rep(b"A: b\r\n", n)); (0, 0, b) }
+        "many-headers-spaces" => { b = b"HTTP/1.1 200 OK\r\n".to_vec(); b.extend(rep(b"A \t: b\r\n", n)); (1, 1, b) }
+        "empty-lines" => { b = rep(b"\r\n", n); (0, 0, b) }
+        "reason" => { b = b"HTTP/1.1 200 ".to_vec(); b.extend(rep(b"r \xa9", n)); (1, 8, b) }
+        "status-spaces" => { b = b"HTTP/1.1 ".to_vec(); b.extend(rep(b" ", n)); (1, 8, b) }
+        "request-spaces" => { b = b"GET ".to_vec(); b.extend(rep(b" ", n)); (0, 4, b) }
+        "headers-only" => { b = rep(b"Name: value value\r\n", n); (2, 0, b) }
+        _ => { b = b"1;".to_vec(); b.extend(rep(b"ext\n", n)); (3, 0, b) }
+    }
+}
+fn search_timing() -> Vec<String> {
+    let mut out = vec![];
+    for name in ["folded-blank-lines", "folded-lines", "ignored-lines-req", "ignored-lines-resp", "ws-after-colon", "ws-after-colon-fold", "ws-before-first",
+                 "long-value", "long-value-trailing-ws", "long-name", "long-target", "many-headers", "many-headers-spaces", "empty-lines", "reason",
+                 "status-spaces", "request-spaces", "headers-only", "chunk-ext"] {
+        let mut worst = f64::MAX;
+        let mut t_big = 0.0;
+        for _ in 0..3 {
+            let (k, c, small) = family(name, 4096);
+            let (_, _, big) = family(name, 65536);
+            let ts = time_parse(k, c, &small).max(1e-7);
+            let tb = time_parse(k, c, &big);
+            if tb / ts < worst { worst = tb / ts; t_big = tb; }
+        }
+        eprintln!("timing family={} ratio={:.1} t64k={:.6}s", name, worst, t_big);
+        if worst > 80.0 && t_big > 0.005 {
+            out.push(format!("{{\"stage\":\"any\",\"gen\":\"timing\",\"family\":\"timing\",\"oracle\":\"linear-work\",\"entry\":\"{}\",\"cfg\":0,\"cap\":8,\"input_hex\":\"\",\"input\":\"family {} at 4 KiB vs 64 KiB\",\"real\":\"time ratio {:.1} (64 KiB run {:.4} s)\",\"expected\":\"about 16 (linear); reported above 80\"}}", name, name, worst, t_big));
+        }
+    }
+    out
+}
+
 fn main() {
     install_panic_hook();
     let args: Vec<String> = std::env::args().collect();
+    if args.len() >= 2 && args[1] == "timing" {
+        let f = search_timing();
+        for l in &f { println!("{}", l); }
+        std::process::exit(if f.is_empty() { 0 } else { 1 });
+    }
     if args.len() >= 3 && args[1] == "search" {
         let mut ctx = Ctx { findings: vec![], evals: 0, max: 60, gen: "enum" };
         let fam = args[2].as_str();
